@@ -32,6 +32,9 @@ def grid(tier, seed, section):
              ('u8', -7, 'u8', -1, 2), ('i64', -40, 'i32', -31, 2), ('i32', -2, 'i32', 1, 10), ('i64', -6, 'i16', -3, 10),
              ('u32', 0, 'i32', -1, 2), ('i32', 10, 'i8', 40, 2), ('i32', -1, 'u64', -1, 3), ('i128', -70, 'i64', -40, 2)]
     out = [c for c in fixed if instantiable(*c, section)]
+    if section == 'C04':
+        # unsigned power_value with a non-binary radix wraps instead of failing to compile (known finding)
+        out.append(('u32', -10, 'u32', 0, 10))
     n = 34 if tier == 'quick' else 160
     tries = 0
     while len(out) < n and tries < 5000:
